@@ -262,6 +262,28 @@ func checkC06(c *Ctx) {
 						}
 					}
 				}
+				// what a device is called (unless it starts with a digit) says nothing about
+				// the features it uses: nameless and oddly named devices count like any other
+				for k := 0; k < n; k++ {
+					if nm := s.Devices[k].Name; len(nm) > 0 && '0' <= nm[0] && nm[0] <= '9' {
+						continue
+					}
+					for _, nm := range []string{"", "-", ".", "/", "\x00", "\u00e9", " 1", "d 9"} {
+						ds := *s
+						ds.Devices = append([]specs.Device{}, s.Devices...)
+						ds.Devices[k].Name = nm
+						var g string
+						if pv, st := guard(func() { g, _ = specs.MinimumRequiredVersion(&ds) }); pv != nil {
+							cs.Violation("panic", nil, fmt.Sprintf("MinimumRequiredVersion panics with device %d named %q: %v", k, nm, pv), map[string]any{"w": wit(), "stack": st})
+							return
+						}
+						c.Count("queries_with_odd_device_names", 1)
+						if g != want {
+							cs.Violation("minimum", map[string]string{"want": want, "got": g, "name": nm}, fmt.Sprintf("MinimumRequiredVersion = %s with device %d named %q, features used require %s (n=%d placement=%v)", g, k, nm, want, n, place), wit())
+							return
+						}
+					}
+				}
 				{
 					fresh := cloneSpec(s)
 					// two queries of the same object back to back, its content replaced in
